@@ -1,5 +1,6 @@
 import RactorModel.Extracted
 import RactorModel.Lemmas.LifeC01
+import RactorModel.Lemmas.LifeWorld
 
 /-!
 # C01 — One handler at a time, in lifecycle order
@@ -31,6 +32,17 @@ automaton. -/
 theorem lifecycle (id : Nat) (ops : List AOp) : Life.C01.ok (trace id ops) = true := by
   obtain ⟨s', h, _⟩ := Life.C01.run_sim ops (Actor.init id) {} (Life.C01.inv_init id)
   simp [Life.C01.ok, trace, h, Except.isOk, Except.toBool]
+
+/-- **The same for the composed world** (what the driver replays): in every run of `World.step`
+from the empty world (one harness case: any number of actors, supervision links, effects routed
+between them), the trace projection of every actor `i` satisfies the property — because the world
+changes actors only through `Actor.step` (`Life.world_actor_run`). -/
+theorem lifecycle_world (ops : List Op) (h : ∀ op ∈ ops, op ≠ .case) (i : Nat) :
+    Life.C01.ok (projEvs i (({} : World).run ops).2) = true := by
+  obtain ⟨aops, e⟩ := world_actor_run ops h i
+  have := lifecycle i aops
+  simp only [trace, e] at this
+  exact this
 
 /-- The invariant behind it, for every reachable state: unless the actor is done, the automaton's
 stage is the one of the actor's phase (so the callback whose future exists is exactly the one the
@@ -100,6 +112,7 @@ example : Life.C01.ok [.enter .preStart .none, .exit .preStart .ok, .enter .post
 end C01
 
 #print axioms C01.lifecycle
+#print axioms C01.lifecycle_world
 #print axioms C01.invariant
 #print axioms C01.no_overlap
 #print axioms C01.src_thread_local_twins
